@@ -239,7 +239,14 @@ def run_history(hist, root, pack_after=None, keep_open=False, referencesf=None):
         if pack_after is not None:
             rr.pre_pack_events = len(rr.events)
             import time as _time
-            fs.pack(_time.time(), referencesf, gc=pack_after)
+            if isinstance(pack_after, dict):
+                # pack to a time BETWEEN transaction `after` and the next one (tids must be well apart)
+                from ZODB.TimeStamp import TimeStamp
+                a = hist[pack_after['after']]['tid']
+                b = hist[pack_after['after'] + 1]['tid'] if pack_after['after'] + 1 < len(hist) else a + 0x2000000
+                fs.pack(TimeStamp(p64((a + b) // 2)).timeTime(), referencesf, gc=pack_after.get('gc', False))
+            else:
+                fs.pack(_time.time(), referencesf, gc=pack_after)
             rr.events = rec.events[n0:]
             with open(path, 'rb') as f:
                 rr.packed = f.read()
